@@ -131,7 +131,17 @@ func execute(t *testing.T, sc *Scenario, prefix []Choice, halt bool) *Result {
 			c := newCtl(prefix)
 			c.HaltAfterPrefix = halt
 			sarama.VerifGateFn = c.Gate
-			sarama.VerifPickFn = nil
+			// client.any() iterates a Go map when all seeds are gone: own that choice (lowest broker id);
+			// a rig that wants to explore the alternatives installs its own picker
+			sarama.VerifPickFn = func(brokers map[int32]*sarama.Broker) *sarama.Broker {
+				var best *sarama.Broker
+				for id, b := range brokers {
+					if best == nil || id < best.ID() {
+						best = b
+					}
+				}
+				return best
+			}
 			sarama.PanicHandler = func(v interface{}) {
 				c.mu.Lock()
 				c.Panics = append(c.Panics, fmt.Sprintf("%v\n%s", v, debug.Stack()))
